@@ -261,3 +261,130 @@ Proof.
       rewrite Hlm, Hrm in H; cbn [bind] in H; rewrite Hzo, Hv in H;
       (eapply Hgen; [exact H|reflexivity|reflexivity]).
 Qed.
+
+(* ---------- the same with the error cases: unless an out-of-zone name stops the statement, the
+   loop of _generate_line and the line-by-line reading of the expansion end alike - same state,
+   or the same exception ---------- *)
+Definition same_outcome (ttlo : option (list Z)) (ttl : Z) (rg : res (rstate * bool)) (rf : res rstate) : Prop :=
+  match rg with
+  | Ok (g', false) => exists f', rf = Ok f' /\ g' = after_ttlo f' ttlo ttl
+  | Ok (_, true) => True
+  | Lib e => rf = Lib e
+  | Internal e => rf = Internal e
+  end.
+
+Lemma bind_lib {A B} (r : res A) (f : A -> res B) e : r = Lib e -> bind r f = Lib e.
+Proof. intros ->. reflexivity. Qed.
+Lemma bind_int {A B} (r : res A) (f : A -> res B) e : r = Internal e -> bind r f = Internal e.
+Proof. intros ->. reflexivity. Qed.
+
+Section GenAll.
+  Variables (c : cfg) (co zo : name) (lhs rhs : list Z).
+  Variables (ttlo clso : option (list Z)) (tyt : list Z) (ttl ty step : Z).
+  Hypothesis Hco : is_absolute co = true.
+  Hypothesis Hcls : forall cv, clso = Some cv -> class_from_text cv = Some (c_class c).
+  Hypothesis Hty : type_from_text tyt = Some ty.
+  Hypothesis Htc : class_from_text tyt = None.
+  Hypothesis Htt : ttl_from_text tyt = Lib eBadTTL.
+  Hypothesis Hsoa : ty <> tSOA.
+
+  Lemma as_name_owner_err v e :
+    lift_name true (NameM.from_text v (Some co)) = Lib e -> as_name true v (Some co) false None = Lib e.
+  Proof. intros H. unfold as_name. rewrite H. reflexivity. Qed.
+  Lemma as_name_owner_int v e :
+    lift_name true (NameM.from_text v (Some co)) = Internal e -> as_name true v (Some co) false None = Internal e.
+  Proof. intros H. unfold as_name. rewrite H. reflexivity. Qed.
+
+  Lemma gen_loop_outcome (lm rm : gmodt) : forall count i g f,
+    rel_gf ttlo ttl g f -> corigin f = Some co -> zorigin f = Some zo -> ttl_given f ttlo ttl ->
+    same_outcome ttlo ttl (gen_loop count i step c g co zo lhs rhs lm rm ttl ty)
+                 (exp_fold count i step c f lhs rhs lm rm ttlo clso tyt).
+  Proof.
+    destruct lm as [[[[lmod lneg] loff] lwidth] lbase].
+    destruct rm as [[[[rmod rneg] roff] rwidth] rbase].
+    induction count as [|k IH]; intros i g f HR Hcf Hzf Httl; cbn [gen_loop exp_fold].
+    - cbn. exists f. split; [reflexivity|exact HR].
+    - cbv beta iota. unfold gen_exp_line, gen_text.
+      set (nametext := replace_all (36 :: lmod) (format_index (i + (if lneg then - loff else loff)) lbase lwidth) lhs).
+      set (rdtext := replace_all (36 :: rmod) (format_index (i + (if rneg then - roff else roff)) rbase rwidth) rhs).
+      destruct (lex rdtext 0 MSkip []) as [[toks term] rest0] eqn:Elex.
+      set (lerr := match term with TErr => true | _ => false end).
+      assert (Hzg : forall nm, zn (set_last g nm) = zn f) by (intros; rewrite HR; destruct ttlo; reflexivity).
+      (* owner *)
+      destruct (lift_name true (NameM.from_text nametext (Some co))) as [nm|e|e] eqn:Enm; cbn [bind].
+      2:{ unfold rr_line. rewrite Hcf, (as_name_owner_err _ _ Enm). reflexivity. }
+      2:{ unfold rr_line. rewrite Hcf, (as_name_owner_int _ _ Enm). reflexivity. }
+      destruct (negb (is_subdomain nm zo)) eqn:Esub; [exact Logic.I|].
+      apply negb_false_iff in Esub.
+      assert (Hline : rr_line c f false (TId nametext :: opt_tok ttlo ++ opt_tok clso ++ TId tyt :: toks) lerr =
+                      (do n <- (if c_rel c then lift_name true (relativize nm zo) else Ok nm);
+                       do rd <- parse_rdata ty toks lerr co (c_rel c) zo;
+                       do z' <- txn_add zo (c_rel c) (zn f) n ttl ty rd;
+                       Ok (set_zn (after_ttlo (set_last f nm) ttlo ttl) z'))).
+      { unfold rr_line. rewrite Hcf, (as_name_owner_absolute _ _ _ Hco Enm). cbn [bind]. st_simpl.
+        rewrite Hzf, Esub. cbn [negb].
+        destruct (if c_rel c then lift_name true (relativize nm zo) else Ok nm) as [n|e|e]; cbn [bind]; try reflexivity.
+        assert (Httl1 : ttl_given (set_last f nm) ttlo ttl) by (destruct ttlo; exact Httl).
+        rewrite (rr_fields_gen c (set_last f nm) co zo n ttlo ttl clso tyt ty toks lerr Httl1 Hcls Hty Htc Htt Hsoa).
+        reflexivity. }
+      rewrite Hline. clear Hline.
+      destruct (if c_rel c then lift_name true (relativize nm zo) else Ok nm) as [n|e|e]; cbn [bind]; try reflexivity.
+      fold lerr.
+      destruct (parse_rdata ty toks lerr co (c_rel c) zo) as [rd|e|e]; cbn [bind]; try reflexivity.
+      rewrite (Hzg nm).
+      destruct (txn_add zo (c_rel c) (zn f) n ttl ty rd) as [z'|e|e]; cbn [bind]; try reflexivity.
+      set (f1 := set_zn (after_ttlo (set_last f nm) ttlo ttl) z').
+      assert (HR1 : rel_gf ttlo ttl (set_zn (set_last g nm) z') f1).
+      { unfold rel_gf, f1. rewrite HR. destruct ttlo; destruct f; reflexivity. }
+      apply (IH (i + step) _ f1 HR1).
+      + unfold f1. destruct ttlo; st_simpl; exact Hcf.
+      + unfold f1. destruct ttlo; st_simpl; exact Hzf.
+      + unfold f1, ttl_given in *. destruct ttlo; st_simpl; exact Httl.
+  Qed.
+End GenAll.
+
+(* statement level: a $GENERATE that is rejected is rejected with the exception its expansion raises *)
+Theorem respell_generate_errors_proof c s co zo t0 lhs ttlo clso tyt rhs start stop step ttl ty lm rm :
+  corigin s = Some co -> zorigin s = Some zo -> is_absolute co = true ->
+  grange_from_text (tokval t0) = Ok (start, stop, step) ->
+  ttl_given s ttlo ttl ->
+  (forall cv, clso = Some cv -> class_from_text cv = Some (c_class c)) ->
+  type_from_text tyt = Some ty -> class_from_text tyt = None -> ttl_from_text tyt = Lib eBadTTL ->
+  ty <> tSOA ->
+  parse_modify lhs = Ok lm -> parse_modify rhs = Ok rm ->
+  let stmt := generate_line c s (t0 :: TId lhs :: opt_tok ttlo ++ opt_tok clso ++ [TId tyt; TId rhs]) false in
+  let expn := exp_fold (Z.to_nat ((stop - start) / step + 1)) start step c s lhs rhs lm rm ttlo clso tyt in
+  (forall e, stmt = Lib e -> expn = Lib e) /\ (forall e, stmt = Internal e -> expn = Internal e).
+Proof.
+  intros Hco Hzo Hab Hgr Httl Hcls Hty Htc Htt Hsoa Hlm Hrm stmt expn.
+  assert (Hgen : forall g (toks4 : list tok),
+            rel_gf ttlo ttl g s ->
+            let r := (do (s2, eaten) <- gen_loop (Z.to_nat ((stop - start) / step + 1)) start step c g co zo lhs rhs lm rm ttl ty;
+                      if eaten then Ok (s2, @None (list tok)) else Ok (s2, Some toks4)) in
+            (forall e, r = Lib e -> expn = Lib e) /\ (forall e, r = Internal e -> expn = Internal e)).
+  { intros g toks4 HR r.
+    pose proof (gen_loop_outcome c co zo lhs rhs ttlo clso tyt ttl ty step Hab Hcls Hty Htc Htt Hsoa lm rm
+                  (Z.to_nat ((stop - start) / step + 1)) start g s HR Hco Hzo Httl) as HO.
+    unfold r. fold expn in HO.
+    destruct (gen_loop _ start step c g co zo lhs rhs lm rm ttl ty) as [[s2 eaten]|e0|e0]; cbn [bind same_outcome] in *.
+    - destruct eaten; split; intros e H; discriminate H.
+    - split; intros e H; inversion H; subst; exact HO.
+    - split; intros e H; inversion H; subst; exact HO. }
+  unfold stmt, generate_line. rewrite Hco, Hgr. cbn [get_ident bind].
+  unfold ttl_given in Httl.
+  destruct ttlo as [tv|]; destruct clso as [cv|]; cbn [opt_tok app get_ident bind].
+  - rewrite Httl. cbn [get_ident bind]. rewrite (Hcls cv eq_refl). cbn [get_ident bind].
+    rewrite Z.eqb_refl. cbn [negb]. rewrite Hty. cbn [get_ident bind]. rewrite Hlm, Hrm. cbn [bind]. st_simpl. rewrite Hzo.
+    apply Hgen. reflexivity.
+  - rewrite Httl. cbn [get_ident bind]. rewrite Htc. cbn [get_ident bind].
+    rewrite Z.eqb_refl. cbn [negb]. rewrite Hty. cbn [get_ident bind]. rewrite Hlm, Hrm. cbn [bind]. st_simpl. rewrite Hzo.
+    apply Hgen. reflexivity.
+  - rewrite (class_not_ttl _ _ (Hcls cv eq_refl)).
+    destruct Httl as [[Hk Hv]|(Hk & Hl & Hv)]; rewrite Hk; [|rewrite Hl]; cbn [bind];
+      rewrite (Hcls cv eq_refl); cbn [get_ident bind]; rewrite Z.eqb_refl; cbn [negb]; rewrite Hty; cbn [get_ident bind];
+      rewrite Hlm, Hrm; cbn [bind]; rewrite Hzo, Hv; apply Hgen; reflexivity.
+  - rewrite Htt.
+    destruct Httl as [[Hk Hv]|(Hk & Hl & Hv)]; rewrite Hk; [|rewrite Hl]; cbn [bind];
+      rewrite Htc; cbn [get_ident bind]; rewrite Z.eqb_refl; cbn [negb]; rewrite Hty; cbn [get_ident bind];
+      rewrite Hlm, Hrm; cbn [bind]; rewrite Hzo, Hv; apply Hgen; reflexivity.
+Qed.
